@@ -38,6 +38,12 @@ def prepare(chk, thorough):
     if res2.violated:
         raise MachineryError("WasmCtl.tla disagrees with its hand-evaluated programs: " + res2.violated)
     chk.tlc(res2, "WasmCtl programs (one compound statement per level; the grammar with a simple statement beside it, ctlfull.cfg, gives 81 000 functions - too many for one C translation unit)")
+    # trapping float-to-integer conversions (WasmTrunc.tla): exact operands at the limits of each target type
+    with open(path, "a") as fh:
+        res3 = common.run_tlc("wasm", "WasmTrunc", "trunc.cfg", collect_prefix='<<"T"', timeout=600, line_cb=lambda l: fh.write(l + "\n"))
+    if res3.violated:
+        raise MachineryError("WasmTrunc.tla violates " + res3.violated)
+    chk.tlc(res3, "WasmTrunc (iNN.trunc_fMM_s/u at the range limits)")
     out = os.path.join(d, "m")
     rc, so, se, to = common.run_child([b, "prep", path, out], timeout=600)
     if rc != 0:
@@ -64,6 +70,8 @@ def run_node(out):
 
 
 def case_key(c):
+    if c["fn"].startswith("ftrunc_"):
+        return c["fn"][:-4] + ("(out-of-range)" if c["trap"] else "")
     if c["fn"].startswith("mem_") or c["fn"].startswith("ldb_"):
         return c["fn"] + ("(oob)" if c["trap"] else "")
     cls = []
